@@ -53,6 +53,7 @@ for f in (1, 2, 3, 4, 5, 6, 7):
     add(f, 'plain', {}, quick_inters=(2,) if f in (4, 5) else (), cand=1)
 # --- monthly, intervals beyond a year (the month/year carry of the period step)
 add(2, 'plain', {}, quick_inters=(), all_inters=(13, 25), cand=1)
+add(2, 'plain_fixday', {}, quick_inters=(13,), all_inters=(13, 25), cand=1, extra=['FIXDAY'])
 add(1, 'plain', {}, quick_inters=(), all_inters=(5,), cand=1)
 # --- monthly
 add(2, 'bymonthday1', {'NDOM': 1}, quick_inters=(), cand=1)
